@@ -186,6 +186,13 @@ func (p *poller) Poll(timeoutMs int) (n int, err error) {
 			continue
 		}
 
+		if events&(syscall.EPOLLHUP|syscall.EPOLLERR) != 0 {
+			// Hang-up and error conditions are reported regardless of the registered interest, possibly on their
+			// own (a FIFO whose writer went away reports EPOLLHUP only). Both directions are ready then: the
+			// in-flight operation completes with EOF or with the error instead of never being dispatched.
+			events |= PollerReadEvent | PollerWriteEvent
+		}
+
 		if events&slot.Events&PollerReadEvent == PollerReadEvent {
 			// TODO this errors should be reported
 			_ = p.DelRead(slot)
